@@ -159,7 +159,7 @@ def loader_friendly(recs):
 
 
 UNIQUE_RECORD_PROPS = {"C02", "C06"}
-ROUTES = ["ctor", "ctor", "incremental", "mixed", "grown-by-merge", "re-added-case-insensitively", "via-loader"]
+ROUTES = ["ctor", "ctor", "incremental", "mixed", "grown-by-merge", "re-added-case-insensitively", "via-loader", "via-derivation"]
 
 
 def mk_records_sharing_lists(api, order, rng):
@@ -477,6 +477,43 @@ def _build(api, recs, delimiter, rng, how):
         if shape < 0.25:
             return api.Converter(tuple(made), delimiter=delimiter), how + "(tuple)"
         return api.Converter(made, delimiter=delimiter), how
+    if how == "via-derivation":
+        # the converter is the PRODUCT of another public operation (twentieth round of seeded changes: damage done in one
+        # operation that shows only in another): a sub-converter of a larger one, a chain of a bare prefix map and the
+        # records that bring the synonyms, or the result of rewiring / remapping a pre-image whose canonical URI prefix
+        # (CURIE prefix) was one of the intended record's synonyms.  The product denotes exactly `recs`.
+        import curies
+
+        kinds = ["subconverter", "chain"]
+        if any(r.usyn for r in order):
+            kinds += ["rewire", "remap-uri"]
+        if any(r.psyn for r in order):
+            kinds += ["remap-curie"]
+        kind = rng.choice(kinds)
+        if kind == "subconverter":
+            extra = [api.Record(prefix="zzextra", uri_prefix="http://zz.extra/", prefix_synonyms=["zzextra2"])]
+            parent = api.Converter([mk_record(api, r) for r in order] + extra, delimiter=delimiter)
+            c = parent.get_subconverter([r.prefix for r in order] if rng.random() < 0.5 else {rng.choice(spec.all_p(r)) for r in order})
+        elif kind == "chain":
+            bare = api.Converter([api.Record(prefix=r.prefix, uri_prefix=r.uri_prefix, pattern=r.pattern) for r in order], delimiter=delimiter)
+            rest = api.Converter([mk_record(api, r) for r in order if r.psyn or r.usyn], delimiter=delimiter)
+            c = curies.chain([bare, rest])
+        elif kind in ("rewire", "remap-uri"):
+            r0 = rng.choice([r for r in order if r.usyn])
+            pre = [r if r is not r0 else r0._replace(uri_prefix=r0.usyn[0], usyn=tuple(x for x in r0.usyn if x != r0.usyn[0])) for r in order]
+            c0 = api.Converter([mk_record(api, r) for r in pre], delimiter=delimiter)
+            if kind == "rewire":
+                c = curies.rewire(c0, {rng.choice(spec.all_p(r0)): r0.uri_prefix})
+            else:
+                c = curies.remap_uri_prefixes(c0, {rng.choice(r0.usyn): r0.uri_prefix})
+        else:
+            r0 = rng.choice([r for r in order if r.psyn])
+            pre = [r if r is not r0 else r0._replace(prefix=r0.psyn[0], psyn=tuple(x for x in r0.psyn if x != r0.psyn[0])) for r in order]
+            c0 = api.Converter([mk_record(api, r) for r in pre], delimiter=delimiter)
+            c = curies.remap_curie_prefixes(c0, {rng.choice(r0.psyn): r0.prefix})
+        if c.delimiter != delimiter:
+            c.delimiter = delimiter  # (derivations return the default delimiter; assigning it is the documented way to change it)
+        return c, f"{how}({kind})"
     if how == "via-loader":
         # the map arrives through one of the documented loaders, its entries in a shuffled order (entries of one record
         # need not be adjacent): an extended prefix map always; a priority map or a reverse prefix map when the records
